@@ -809,13 +809,37 @@ class RewriteRuleSet:
                     for n in delta.new_nodes:
                         n.metadata_props[RULE_NAME_TAG] = rule.name
 
+                # A replacement may forward an existing value (e.g. x * 1 => x) instead of
+                # creating a node. A graph input, an initializer, a graph output or a value of an
+                # enclosing graph must keep its own name (replace_nodes_and_values gives the new
+                # value the name of the matched output), so the matched output is taken over by
+                # an Identity of it.
+                new_nodes = list(delta.new_nodes)
+                new_outputs = list(delta.new_outputs)
+                for i, new_output in enumerate(new_outputs):
+                    if new_output is None or any(
+                        new_output.producer() is n for n in delta.new_nodes
+                    ):
+                        continue
+                    producer = new_output.producer()
+                    if (
+                        producer is None
+                        or producer.graph is not node.graph
+                        or new_output.is_graph_output()
+                    ):
+                        identity = ir.node("Identity", [new_output])
+                        if rule.name:
+                            identity.metadata_props[RULE_NAME_TAG] = rule.name
+                        new_nodes.append(identity)
+                        new_outputs[i] = identity.outputs[0]
+
                 convenience.replace_nodes_and_values(
                     graph_or_function,
                     node,
                     delta.match.nodes if rule.remove_nodes else [],
-                    delta.new_nodes,
+                    new_nodes,
                     delta.match.outputs,
-                    delta.new_outputs,
+                    new_outputs,
                 )
 
                 if merge_metadata:
